@@ -304,8 +304,8 @@ structure DSt where
       a container that alters a value without executing anything and without raising is C02's matter — and consumes
       `builds` only. -/
   valueFacts : Bool := true
-  /-- the console the evaluation entry points write their progress line to (`console` line), and the number of writes
-      that stream has seen -/
+  /-- the console the evaluation entry points write their progress line to (`console` line), and the number of
+      calls that have written to that stream -/
   console : Console := .utf8
   written : Nat := 0
 
@@ -397,7 +397,7 @@ def step (st : DSt) (toks : List String) : DSt × String :=
       | "closed" => .closed
       | "ascii" | "latin1" | "cp1252" => .narrow
       | "asciirepl" | "asciibs" => .lossy
-      | "failat" | "failatv" => .failAt (natD k)
+      | "failat" | "failatv" | "failnl" => .failAt (natD k)
       | _ => .utf8
     ({ st with console := c, written := 0 }, "ok ## console:" ++ (match c with
       | .utf8 => "utf8" | .closed => "closed" | .narrow => "narrow" | .lossy => "lossy" | .failAt _ => "failat"))
